@@ -212,6 +212,15 @@ pub fn run(rep: &Report) -> serde_json::Value {
     let thorough = rep.thorough();
     let alpha = alphabet();
     check_table(rep);
+    // decoding control messages is a function of the bytes alone: after 400 rejected inputs on this thread (truncated and
+    // over-nested terms) the table goes through the wire exactly as before
+    {
+        let mut junk: Vec<Vec<u8>> = vec![vec![131, 104, 3, 97], vec![131, 108, 0, 0, 0, 2, 97, 1], vec![131, 104, 2, 104, 2, 104, 2, 200], vec![131, 116, 0, 0, 0, 1, 104, 1]];
+        let mut deep = vec![131u8]; for _ in 0..300 { deep.extend_from_slice(&[104, 1]); } deep.extend_from_slice(&[97, 1]); junk.push(deep);
+        for i in 0..400 { let _ = erltf::decode(&junk[i % junk.len()]); let mut c = erltf::AtomCache::new(); let _ = erltf::decode_with_atom_cache(&junk[i % junk.len()], &mut c); let _ = erltf::decode_borrowed(&junk[i % junk.len()]); }
+        rep.add("evaluations", 400);
+        check_table(rep);
+    }
     // rejected shapes
     let rejects: Vec<OwnedTerm> = vec![
         atom("x"), int(1), OwnedTerm::Nil, OwnedTerm::List(vec![int(1), int(2)]), OwnedTerm::Tuple(vec![]), OwnedTerm::Tuple(vec![atom("a"), int(1)]),
@@ -255,6 +264,19 @@ pub fn run(rep: &Report) -> serde_json::Value {
                     rep.violation("an atom inside a control message changes its name on the way through the wire encoding", json!({"tag": tag, "reason": name.chars().take(40).collect::<String>(), "on_the_wire": on_wire, "parsed_back": parsed_back}));
                 }
             }
+        }
+    }
+    // references of 1..5 id words (alias and pid-bearing references have five) in the operations that carry one
+    for words in 1..=5usize {
+        for tag in [19i64, 20, 21] {
+            rep.add("evaluations", 1);
+            let pid = OwnedTerm::Pid(erltf::types::ExternalPid::new(erltf::types::Atom::new("n@h"), 1, 2, 3));
+            let rf = OwnedTerm::Reference(erltf::types::ExternalReference::new(erltf::types::Atom::new("n@h"), 7, (1..=words as u32).collect()));
+            let mut e = vec![int(tag), pid.clone(), pid.clone(), rf];
+            if tag == 21 { e.push(atom("normal")); }
+            let t = OwnedTerm::Tuple(e);
+            let want = denote(&t);
+            match ControlMessage::from_term(&t) { Ok(m) => { wire_trip(rep, &m, &want); header_trip(rep, &m, &want); } Err(e) => rep.violation("integer-tagged tuple rejected", json!({"tag": tag, "reference_words": words, "error": e.to_string()})) }
         }
     }
     // fields that are long lists of small integers (around the 16-bit length of STRING_EXT) survive both wire forms
